@@ -368,6 +368,12 @@ class Scheduler:
             return self.rng.choice(run), self.rng.choice(self.BUDGETS)
         if k == "roundrobin":
             return run[0], 1 << 60
+        if k == "fine_start":
+            # line-by-line interleaving while the calls are young (cache look-ups and initialisation
+            # happen in the first lines of a call), coarse afterwards
+            if self.steps < self.spec.get("fine_steps", 400):
+                return self.rng.choice(run), self.rng.choice([1, 1, 2, 3])
+            return self.rng.choice(run), self.rng.choice([50, 200, 1000, 5000])
         # random walk
         return self.rng.choice(run), self.rng.choice(self.spec.get("budgets", self.BUDGETS))
 
